@@ -33,6 +33,9 @@ const (
 
 func shrink(tb tb, deadline time.Time, rec recordedBits, err *testError, prop func(*T)) ([]uint64, *testError) {
 	rec.prune()
+	if verifOn {
+		verifEmit("shrink.begin", "data", verifWords(rec.data), "err", verifErr(err))
+	}
 
 	s := &shrinker{
 		tb:      tb,
@@ -45,6 +48,9 @@ func shrink(tb tb, deadline time.Time, rec recordedBits, err *testError, prop fu
 	}
 
 	buf, err := s.shrink(deadline)
+	if verifOn {
+		verifEmit("shrink.end", "data", verifWords(buf), "err", verifErr(err), "shrinks", s.shrinks)
+	}
 
 	if flags.debugvis {
 		name := fmt.Sprintf("vis-%v.html", strings.Replace(tb.Name(), "/", "_", -1))
@@ -247,24 +253,39 @@ func (s *shrinker) removeGroupSpans(deadline time.Time) {
 
 func (s *shrinker) accept(buf []uint64, label string, format string, args ...any) bool {
 	if compareData(buf, s.rec.data) >= 0 {
+		if verifOn {
+			verifEmit("accept", "label", label, "how", "notsmaller", "cand", verifWords(buf), "best", verifWords(s.rec.data))
+		}
 		return false
 	}
 	bufStr := dataStr(buf)
 	if _, ok := s.cache[bufStr]; ok {
+		if verifOn {
+			verifEmit("accept", "label", label, "how", "cached", "cand", verifWords(buf), "best", verifWords(s.rec.data))
+		}
 		s.hits++
 		return false
 	}
 
 	s.debugf(true, label+": trying to reproduce the failure with a smaller test case: "+format, args...)
+	if verifOn {
+		verifEmit("phase", "kind", "shrink1", "label", label, "cand", verifWords(buf), "best", verifWords(s.rec.data))
+	}
 	s.tries[label]++
 	s1 := newBufBitStream(buf, false)
 	err1 := checkOnce(newT(s.tb, s1, flags.debug && flags.verbose, nil), s.prop)
 	if traceback(err1) != traceback(s.err) {
+		if verifOn {
+			verifEmit("accept", "label", label, "how", "othersite", "cand", verifWords(buf), "best", verifWords(s.rec.data), "err1", verifErr(err1), "want", verifErr(s.err))
+		}
 		s.cache[bufStr] = struct{}{}
 		return false
 	}
 
 	s.debugf(true, label+": trying to reproduce the failure")
+	if verifOn {
+		verifEmit("phase", "kind", "shrink2", "label", label, "cand", verifWords(buf), "best", verifWords(s.rec.data))
+	}
 	s.tries[label]++
 	s.err = err1
 	s2 := newBufBitStream(buf, true)
@@ -274,6 +295,9 @@ func (s *shrinker) accept(buf []uint64, label string, format string, args ...any
 	assert(compareData(s.rec.data, buf) <= 0)
 	if flags.debugvis {
 		s.visBits = append(s.visBits, s.rec)
+	}
+	if verifOn {
+		verifEmit("accept", "label", label, "how", "accepted", "cand", verifWords(buf), "new", verifWords(s.rec.data), "err1", verifErr(err1), "err2", verifErr(err2), "same", sameError(err1, err2))
 	}
 	if !sameError(err1, err2) {
 		panic(err2)
